@@ -88,7 +88,7 @@ func (m ClientState) Initialize(
 		return sdkerrors.Wrap(ErrInvalidGenesisBlock, "header")
 	}
 	// Resolve the authorization key and check against validators
-	signer, err := ecrecover(m.Header, big.NewInt(int64(m.ChainId)))
+	signer, err := ecrecover(m.Header, new(big.Int).SetUint64(m.ChainId))
 	if err != nil {
 		return err
 	}
@@ -149,7 +149,7 @@ func (m ClientState) UpgradeState(
 	}
 
 	// Resolve the authorization key and check against validators
-	signer, err := ecrecover(m.Header, big.NewInt(int64(m.ChainId)))
+	signer, err := ecrecover(m.Header, new(big.Int).SetUint64(m.ChainId))
 	if err != nil {
 		return err
 	}
